@@ -180,7 +180,34 @@ func directorProgram(c *worker.Ctx) string {
 		}
 	}
 	b.WriteString("}\n")
-	b.WriteString("sub vcl_recv {\n  set req.backend = d_main;\n")
+	target := "d_main"
+	if c.T.Bool(1, 4) {
+		// directors that are members of directors: a chain, a ring (every member
+		// is declared after the director that names it, or before), or a director
+		// that is its own member; the request goes through the first of them
+		k := 1 + c.T.Draw(3)
+		ring := c.T.Bool(1, 2)
+		order := c.T.Bool(1, 2)
+		var ds []string
+		for i := 0; i < k; i++ {
+			member := fmt.Sprintf("d_r%d", (i+1)%k)
+			if !ring && i == k-1 {
+				member = "F_b0"
+			}
+			ds = append(ds, fmt.Sprintf("director d_r%d %s {\n  { .backend = %s; .weight = 1; }\n  { .backend = F_b0; .weight = %d; }\n}\n", i, []string{"random", "fallback", "hash", "client"}[c.T.Draw(4)], member, c.T.Draw(2)))
+		}
+		if order {
+			for i := len(ds) - 1; i >= 0; i-- {
+				b.WriteString(ds[i])
+			}
+		} else {
+			for _, d := range ds {
+				b.WriteString(d)
+			}
+		}
+		target = "d_r0"
+	}
+	fmt.Fprintf(&b, "sub vcl_recv {\n  set req.backend = %s;\n", target)
 	if c.T.Bool(1, 3) {
 		b.WriteString("  set client.identity = req.http.X-A;\n")
 	}
